@@ -33,14 +33,26 @@ def execute(sc, fixed=None, log=None, fixed_sched=None):
     t0 = time.time()
     posmap = None
     if sc.mt:
+        from . import mt
         m = _execute1(sc, mod, fixed, None, None)
-        posmap = m.sched.ranks
-        try:
-            m = _execute1(sc, mod, fixed, posmap, log, fixed_sched=fixed_sched)
-        except Exception as e:
-            from . import mt
-            if not isinstance(e, mt.MissingKey): raise
-            if log: log('    (second run met an unranked operation; falling back to placeholder positions)')
+        keys = {t: set(ks) for t, ks in m.sched.keys.items()}
+        m = None
+        for attempt in range(5):
+            posmap = {}
+            for t, ks in keys.items():
+                for i, k in enumerate(sorted(ks)): posmap[k] = i + 1
+                posmap[('n', t)] = len(ks) + 1
+            try:
+                m = _execute1(sc, mod, fixed, posmap, log if attempt == 0 else None, fixed_sched=fixed_sched)
+                break
+            except mt.MissingKey as e:
+                sch = e.args[0]
+                n0 = sum(len(v) for v in keys.values())
+                for t, ks in sch.keys.items(): keys[t] |= set(ks)
+                if log: log('    (run %d met %d unranked operations; re-ranking %d -> %d operations)' % (attempt + 1, sch.missing, n0, sum(len(v) for v in keys.values())))
+                m = None
+        if m is None:
+            if log: log('    (falling back to placeholder positions)')
             m = _execute1(sc, mod, fixed, None, log, strict=True)
     else:
         m = _execute1(sc, mod, fixed, None, log)
@@ -99,8 +111,11 @@ def run_scenario(sc, timeout=120, log=None):
         st = res.cover.get(cid)
         if st != 'sat':
             res.inconclusive.append(run.Outcome('cover#%d' % cid, 'vacuity', st or 'never-reached', detail='coverage goal not reachable: scenario is (partly) vacuous'))
-    if res.unwound_complete is False and not sc.allow_unwound:
-        pass   # recorded; the claim is then bounded by U (stated in evidence)
+    if res.unwound_complete is not True and not sc.allow_unwound:
+        # an execution needing more loop iterations than the bound exists (or could not be excluded): the bound is too
+        # small for this scenario -> not a pass.  Scenarios with intentionally unbounded waits set allow_unwound.
+        res.inconclusive.append(run.Outcome('unwinding-assertion', 'unwind', 'sat' if res.unwound_complete is False else 'unknown',
+                                            detail='loop bound U=%d too small: %s' % (sc.unwind, '; '.join(sorted({w.split(' (U=')[0][-70:] for g, w in m.unwound}))[:300])))
     return res
 
 
